@@ -475,6 +475,61 @@ def run_trickle(case):
     return part
 
 
+def run_backlog(case):
+    """a peer pipelines far more commands than it takes replies for (its receive window is closed from the start of the
+    burst) and then says nothing more: the session is held no longer than the bounds say - idle_timeout after the last
+    command, or socket_timeout after the first reply that cannot be written - however many replies are queued"""
+    idle, sock, wf = case["cfg"]
+    n = case["n"]
+    part = report.Partial()
+    rig = Rig(n_sessions=1, tree=corpus.TREE, window=64, advance=0,
+              server_kwargs={"block_size": 4, "idle_timeout": idle, "socket_timeout": sock, "wait_future_timeout": wf})
+    problems = []
+    try:
+        w = rig.world
+        s = rig.sessions[0]
+        for k, e in enumerate(["@connect", "USER anonymous"]):
+            w.advance_to(k * GAP)
+            rig.ev(0, e)
+        t_burst = 2 * GAP
+        w.advance_to(t_burst)
+        ct = [t for t in w.net.all_transports if t.side == "server" and t.get_extra_info("sockname")[1] == 2121][0]
+        with Running(w.loop):
+            s.ctl.stop_reading()
+            s.ctl.send(b"PWD\r\n" * n)
+        w.settle(0)
+        cands = [t_burst + x for x in (idle, sock) if x is not None]
+        release = min(cands) if cands else None
+        if release is None:
+            w.advance_to(t_burst + 100)
+            if not ct.held():
+                problems.append({"kind": "session-dropped-although-no-bound-is-configured", "at": ct.lost_time})
+        else:
+            w.advance_to(release - 0.5)
+            if not ct.held():
+                problems.append({"kind": "released-too-early", "at": ct.lost_time, "bound": release})
+            w.advance_to(release + 2)
+            if ct.held():
+                problems.append({"kind": "session-held-beyond-its-bound", "bound": release, "now": w.loop.time(),
+                                 "queued_commands": n})
+            else:
+                conns = ledger.live_connections(rig.server)
+                if conns:
+                    problems.append({"kind": "connection-table-not-empty-after-release", "n": len(conns)})
+        part.evaluations += 1
+        part.traces += 1
+        part.transitions += w.net.n_events
+        part.states.add(report.fp(["backlog", case]))
+        part.nontrivial.add(report.fp(["backlog", case]))
+        part.outcomes[report.fp(["backlog", release is None, [p["kind"] for p in problems]])] += 1
+        for p in problems:
+            part.violation({"kind": p["kind"], "script": "backlog", "stall": "noread", "cfg": list(case["cfg"])},
+                           {"problem": p, "case": case}, replay={"case": case, "choices": [], "kinds": []})
+    finally:
+        rig.close()
+    return part
+
+
 def run_two_waiting(case):
     """two transfer commands are waiting for a data connection and one connection is made: one transfer is served, the
     other one is answered 425 (it has no data connection) - and the session continues"""
@@ -532,6 +587,8 @@ def _work(item):
         return run_two_waiting(case)
     if case.get("trickle"):
         return run_trickle(case)
+    if case.get("backlog"):
+        return run_backlog(case)
     try:
         for ch, res in explore(lambda c: run_stall(case, c), bound, kinds=kinds, max_exec=3000):
             if ch is None:
@@ -564,6 +621,8 @@ def build_items(tier):
         for verb in ("RETR d/f", "LIST", "MLSD d"):
             for sndbuf in (0, 4, 6):
                 items.append(({"tail": True, "cfg": list(cfg), "verb": verb, "sndbuf": sndbuf}, 0, []))
+        for n in (40, 1500, 5000):
+            items.append(({"backlog": True, "cfg": list(cfg), "n": n}, 0, []))
         if cfg[1] is not None:
             # the peer takes a little of a blocked write and then stops for good
             for takes in ([(0.5, 1)], [(0.25, 8)], [(0.75, 40)], [(0.25, 1), (0.5, 1)], [(0.5, 59)], []):
@@ -619,6 +678,10 @@ def replay(path):
     rp = data["replay"]
     if rp["case"].get("two_waiting"):
         part = run_two_waiting(rp["case"])
+        print(json.dumps([v for v in part.violations], indent=1, default=repr))
+        return 1 if part.violations else 0
+    if rp["case"].get("backlog"):
+        part = run_backlog(rp["case"])
         print(json.dumps([v for v in part.violations], indent=1, default=repr))
         return 1 if part.violations else 0
     if rp["case"].get("trickle"):
